@@ -1208,7 +1208,7 @@ def eval_anonymous(ctx, R):
     from passeval import MMap, O, Sink, V
 
     try:
-        w = passeval.PassWorld([AST, "program_structure/src/abstract_syntax_tree/expression_impl.rs", "program_structure/src/abstract_syntax_tree/statement_impl.rs", SST, SSR], SSR)
+        w = passeval.PassWorld([AST, "program_structure/src/abstract_syntax_tree/expression_impl.rs", "program_structure/src/abstract_syntax_tree/statement_impl.rs", "program_structure/src/abstract_syntax_tree/assign_op_impl.rs", SST, SSR], SSR)
     except Exception:
         return False
     w.lenient_opaque = True
@@ -1418,6 +1418,41 @@ def eval_anonymous(ctx, R):
             stmt_pos = outcomes
         except (Unsupported, passeval.Panic) as u:
             ctx.note("statement-position anonymous call: outside the evaluator's subset (%s)" % u)
+    # a call on the right of an assignment, `v <-- T()(a)` / `v <== T()(a)`: the expansion ends in the assignment of the
+    # component's output to `v` with the operator that was written (a `<--` that became `<==` adds a constraint and
+    # hides the signal assignment from every later pass)
+    out_op = None
+    if ras is not None:
+        try:
+            seen_ops = {}
+            for o_ in ("<--", "<=="):
+                td = ("O", "template-data", (("get_declaration_inputs", L([("T", ("in", 0))])), ("get_declaration_outputs", L([("T", ("out0", 0))]))))
+                meta = ("O", "call-meta", (("start", 1234), ("get_file_id", O("file-id")), ("clone", ("PY", lambda: mh3[0]))))
+                mh3 = [meta]
+                smeta = ("O", "statement-meta", (("start", 1200), ("get_file_id", O("file-id")), ("clone", ("PY", lambda: mh4[0]))))
+                mh4 = [smeta]
+                call = V("Expression", "AnonymousComponent", meta=meta, id="T", is_parallel=False, params=L([]), signals=L(leafs(1)), names=NONE)
+                st0 = V("Statement", "Substitution", meta=smeta, var="v", access=L([]), op=OPS[o_], rhe=call)
+                r1 = w.call_fn(ras, [MMap([["T", td]]), flib, st0, NONE])
+                if not (isinstance(r1, tuple) and len(r1) > 2 and r1[1] == "Ok"):
+                    raise Unsupported("`v %s T()(a)` is rejected: %r" % (o_, r1))
+
+                def flat2(x):
+                    if isinstance(x, tuple) and len(x) > 3 and x[0] == "V" and x[2] in ("Block", "InitializationBlock") and "stmts" in x[3]:
+                        inner = x[3]["stmts"]
+                        return [y for z in (list(inner.items) if isinstance(inner, Sink) else list(inner[1])) for y in flat2(z)]
+                    return [x]
+
+                tov = [x for x in flat2(r1[2][0][1][0]) if isinstance(x, tuple) and len(x) > 3 and x[0] == "V" and x[2] == "Substitution" and x[3].get("var") == "v"]
+                if len(tov) != 1:
+                    raise Unsupported("%d assignments to `v` in the expansion of `v %s T()(a)`" % (len(tov), o_))
+                seen_ops[o_] = tov[0][3]["op"]
+            out_op = seen_ops
+        except (Unsupported, passeval.Panic) as u:
+            ctx.note("assignment of an anonymous call: outside the evaluator's subset (%s)" % u)
+    if out_op is not None:
+        wrong = ["`v %s T()(a)` ends in an assignment of the output with %s" % (o_, v_[2] if isinstance(v_, tuple) and len(v_) > 2 else v_) for o_, v_ in out_op.items() if v_ != OPS[o_]]
+        ctx.check(R, "anonymous/assigned-call/operator-kept", not wrong, "; ".join(wrong) or "`v <-- T()(a)` and `v <== T()(a)` assign the component's output to `v` with the operator that was written", site(SSR, ras))
     w.stubs = {}
     if stmt_pos is not None:
         okp_ = stmt_pos.get(0) == "accepted" and stmt_pos.get(1, "").startswith("rejected") and stmt_pos.get(2, "").startswith("rejected")
